@@ -568,7 +568,7 @@ func repoCmd(args []string) error {
 			// C29: a refused operation changes nothing (HEAD, branches, index, tracked worktree files)
 			if prop == "C29" {
 				if d := repoDiff(pre, post, row); d != "" {
-					r.Diverge(row.Op+"|refused-but-changed|"+d, fmt.Sprintf("%s returned %q but changed %s", row.Op, normErr(opErr), d), cs)
+					r.Diverge(row.Op+"|refused-but-changed|"+d+"|error="+errClass(opErr), fmt.Sprintf("%s returned %q but changed %s", row.Op, normErr(opErr), d), cs)
 				}
 			}
 			if prop == "C28" && row.Exp.Verdict == "ok" {
